@@ -327,6 +327,23 @@ func archiveMain(args []string) {
 			rep.Hist("tree:" + ft.String())
 			want := expectedDump(nodes, true)
 			// ---- round trip ------------------------------------------------------------------------
+			if i%2 == 0 {
+				// every other tree: the archive path already holds a previous, LONGER archive (a recurring
+				// backup): zipping must replace it, not overwrite its beginning
+				prev := filepath.Join(root, "prev")
+				junk := make([]byte, 60000)
+				x := uint32(i*2654435761 + 12345)
+				for k := range junk {
+					x = x*1664525 + 1013904223
+					junk[k] = byte(x >> 24)
+				}
+				_ = fs.MkDir(prev)
+				_ = fs.WriteFile(filepath.Join(prev, "previous-content.bin"), junk, 0o644)
+				if err := fs.Zip(prev, zipf); err != nil {
+					rep.Fail(hx.Failure{Kind: "harness-error", Key: "zip-previous", Detail: err.Error()})
+				}
+				rep.Hist("zip-over-a-previous-longer-archive")
+			}
 			if err := fs.Zip(src, zipf); err != nil {
 				rep.Fail(hx.Failure{Kind: "impl-violates-property", Key: "zip-failed", Case: canon, Observed: err.Error()})
 				continue
